@@ -192,6 +192,19 @@ def main(argv=None):
 
     # Kani side (function contract on the real function, loop-free full-domain harnesses on a scratch copy)
     kani_res = None
+    if cfg.get("kani") == "leaves":
+        from . import kani as K
+        nb = 4 if tier == "quick" else 6
+        kani_res = K.run_leaves(REPO, nb)
+        solver_time["LEAVES(kani)"] = dict(wall_s=round(kani_res.get("wall_s", 0), 2), cbmc_s={h: r.get("time_s") for h, r in kani_res.get("harnesses", {}).items()})
+        for x in kani_res["undecided"]:
+            undecided.append(dict(unit="LEAVES(kani)", **x))
+        for f in kani_res["failures"]:
+            violations.append(dict(unit="LEAVES(kani)", obligation=f["obligation"], kind="Kani: FAILURE (bounded)", site="src/syntax/lexer.rs", clause=None, rendered=f"harness {f['harness']}: failed check {f['detail']}"))
+        bounded_kani = dict(name="lexer leaves peek / peek2 / step against their assumed contracts (Kani, unwinding assertions on)", bound=f"every valid UTF-8 string of <= {nb} bytes at every character boundary, both escape flags", labelled="bounded (not proof)",
+                            cases=sum(r.get("checks", 0) for r in kani_res.get("harnesses", {}).values()), status=kani_res["status"])
+    else:
+        bounded_kani = None
     if cfg.get("kani") == "ids":
         from . import kani as K
         kani_res = K.run_ids(REPO)
@@ -290,7 +303,7 @@ def main(argv=None):
         functions_under_contract=functions_under_contract,
         assumed_items=trusted_items,
         rewrites_applied=_rule_summary(rules),
-        backend="Verus 0.2026.09.13 (Z3 bundled)" + ("; Kani 0.68.0 / CBMC 6.11 (function contract + loop-free full-domain harnesses)" if kani_res else ""),
+        backend="Verus 0.2026.09.13 (Z3 bundled)" + ("; Kani 0.68.0 / CBMC 6.11 (function contract + loop-free full-domain harnesses)" if kani_res and cfg.get("kani") == "ids" else "") + ("; Kani 0.68.0 / CBMC 6.11 for the bounded check of the lexer leaves" if bounded_kani else ""),
         kani=dict(cmd=kani_res.get("cmd"), harnesses=kani_res.get("harnesses"), statics=kani_res.get("statics")) if kani_res else None,
         solver_time_s=solver_time,
         slow_functions=fn_results[:20],
@@ -301,7 +314,7 @@ def main(argv=None):
         explanation=cfg.get("explanation", ""),
     )
     if standin_report:
-        coverage["bounded_standins"] = standin_report.get("standins", [])
+        coverage["bounded_standins"] = standin_report.get("standins", []) + ([bounded_kani] if bounded_kani else [])
         coverage["evaluations"] = standin_report.get("evaluations", 0)
         coverage["distinct_nontrivial"] = standin_report.get("distinct_nontrivial", 0)
         coverage["rule"] = standin_report.get("rule", "")
